@@ -54,8 +54,12 @@ class CHECK(Check):
                 out.append((d, 's0e', s))
             for s in pairs:
                 out.append((d, 's0p', s))
-            for s in f.s0_triples(exclude=pairs):
-                out.append((d, 's0t', s))
+            seen = set(pairs)
+            for table in (0, 1) + ((2,) if thorough else ()):
+                for s in f.s0_pairs(table=table) + f.s0_triples(table=table):
+                    if s not in seen:
+                        seen.add(s)
+                        out.append((d, 's0t', s))
             for kind, s in f.s1():
                 out.append((d, kind, s))
             # lexeme deviations on production-pair sentences
